@@ -102,7 +102,9 @@ func vfLoadKeys() map[string]*vfKey {
 			panic(err)
 		}
 		pk.Params = vfParams(k.Ln, k.Lstatzk)
-		pk.Issuer = "verif." + k.Name
+		// all fixture keys belong to one issuer and differ in their counter (as successive keys of a real
+		// issuer do): anything that identifies a key by its issuer name alone confuses them
+		pk.Issuer = "verif.issuer"
 		key := &vfKey{Name: k.Name, Sk: sk, Pk: pk, Order: sk.Order}
 		for _, e := range k.PrimesE {
 			key.PrimesE = append(key.PrimesE, vfDec(e))
@@ -112,6 +114,9 @@ func vfLoadKeys() map[string]*vfKey {
 	vfKeyCache = out
 	return out
 }
+
+// vfKeyID is the identifier under which protocols (keyshare) know a key: issuer name and counter.
+func vfKeyID(pk *gabikeys.PublicKey) string { return fmt.Sprintf("%s-%d", pk.Issuer, pk.Counter) }
 
 func vfK(name string) *vfKey {
 	k := vfLoadKeys()[name]
